@@ -22,7 +22,7 @@ STUBS = [
 
 ASSUMPTIONS = [
     "shared file system is coherent; O_CREAT|O_EXCL, rename, unlink and one buffered flush <= 8 KiB are atomic w.r.t. other processes and kills",
-    "SimSoftFileLock reproduces the observable protocol of filelock's SoftFileLock in the two behaviours; the real library is not executed",
+    "SimSoftFileLock reproduces the observable protocol of filelock's SoftFileLock in the two behaviours; the real library is not executed in the runs (the break_stale model is compared with the installed filelock 3.32.7 step by step by `python -m jv.selftest lockmodel`: drawn marker states x age x acquire/release/replace sequences and two-party hand-over / SIGKILLed-holder cases)",
     "SimSlurm: a failed sbatch creates no job; squeue never omits a live job nor misreports a state; terminal states are listed for a while then purged; scancel / node death kill the whole process tree",
     "a JADE process is atomic between two seam operations (processes share nothing but files)",
     "single-node batches only (SLURM_NODEID=0); no Spark, Singularity, PBS, FakeManager",
